@@ -1049,8 +1049,9 @@ void *resource_coordination_kernel(void *input_ptr) {
                 if (pcs_ptr->input_ptr->qp > MAX_QP_VALUE) {
                     SVT_LOG("SVT [WARNING]: INPUT QP OUTSIDE OF RANGE\n");
                     pcs_ptr->qp_on_the_fly = EB_FALSE;
-                }
-                pcs_ptr->picture_qp = (uint8_t)pcs_ptr->input_ptr->qp;
+                    pcs_ptr->picture_qp    = (uint8_t)scs_ptr->static_config.qp;
+                } else
+                    pcs_ptr->picture_qp = (uint8_t)pcs_ptr->input_ptr->qp;
             } else {
                 pcs_ptr->qp_on_the_fly = EB_FALSE;
                 pcs_ptr->picture_qp    = (uint8_t)scs_ptr->static_config.qp;
